@@ -1,6 +1,6 @@
 \* C12 thorough (level B, one signal): 4 events of size 1..2 units, request limits 1..3 units, every
 \* flush after the last event and optionally after events {1},{2},{3},{1,3}, every
-\* interleaving of the emitting thread and the worker, collector decisions ack|reject|stall (before head)|stallbody|stalltrail|dropb|dropa|refuse
+\* interleaving of the emitting thread and the worker, collector decisions ack|reject|stall (before head)|stallbody|stalltrail|rstbody|dropb|dropa|refuse
 \* with <= 3 non-acks, retry budget 10 (never exhausted); REPLAY scenarios from the canonical schedule.
 SPECIFICATION Spec
 CONSTANTS
@@ -8,7 +8,7 @@ CONSTANTS
     Sizes = {1, 2}
     Limits = {1, 2, 3}
     MidFlushes = {{}, {1}, {2}, {3}, {1, 3}}
-    Faults = {"reject", "stall", "stallbody", "stalltrail", "dropb", "dropa", "refuse"}
+    Faults = {"reject", "stall", "stallbody", "stalltrail", "rstbody", "dropb", "dropa", "refuse"}
     MaxFaults = 3
     MaxRetry = 10
     DoublePop = FALSE
